@@ -1,6 +1,7 @@
 package props
 
 import (
+	stdnet "net"
 	"bytes"
 	"encoding/json"
 	"fmt"
@@ -58,7 +59,7 @@ func c18Cases() []c18Params {
 				add("cookieless-repeat", 40, 0)
 				add("cookieless-then-silent", 0, 0)
 				add("valid-control", 0, 0)
-				for _, f := range []string{"vers", "random", "session", "suites", "suites-order", "compression", "shift-sid-suites", "shift-suites-comp"} {
+				for _, f := range []string{"vers", "random", "session", "suites", "suites-order", "compression", "shift-sid-suites", "shift-suites-comp", "suites-scsv", "suites-append-unknown", "suites-append-zero", "compression-append"} {
 					add("field:"+f, 0, 0)
 				}
 				for i := 0; i < 32; i++ {
@@ -72,6 +73,9 @@ func c18Cases() []c18Params {
 				add("other-address", 0, 0)
 				add("other-server", 0, 0)
 				if !secret {
+					// both server connections are accepted from ONE dtlcp listener with one Config that names no
+					// secret: still one random secret per connection
+					add("other-server-same-listener", 0, 0)
 					// the server's Config.Rand hands out 3 bytes per call: the per-connection secret must still
 					// be drawn in full (at least 32 bytes of randomness taken before the first HelloVerifyRequest)
 					add("short-rand-secret", 0, 0)
@@ -163,6 +167,8 @@ func (c18) Run(c *Case, src *vs.Src) *Result {
 		env.DCaches["s"] = sharedCache
 	}
 	net := simnet.NewNet()
+	var lst stdnet.Listener
+	var inner *c18Inner
 	mkServer := func(name string, local, remote simnet.Addr, secret string) (*dtlcp.Conn, *simnet.PacketConn) {
 		sc := &EPConf{Suites: []uint16{p.Suite}, Certs: []string{"server_sig", "server_enc"}, ClientCAs: []string{"ca1"}, WrapKeys: true, CookieSecret: secret}
 		if p.Variant == "other-server-empty-secret" {
@@ -176,6 +182,18 @@ func (c18) Run(c *Case, src *vs.Src) *Result {
 			sc.Suites = []uint16{p.Suite, ECC_CBC}
 		}
 		sp := net.Listen(local, simnet.DirS2C)
+		if p.Variant == "other-server-same-listener" {
+			if lst == nil {
+				inner = &c18Inner{}
+				lst = dtlcp.NewListener(inner, sc.BuildDTLCP(env, "listener"))
+			}
+			inner.next = c18PC{PacketConn: sp, remote: remote}
+			conn, err := lst.Accept()
+			if err != nil {
+				panic("harness: dtlcp listener Accept: " + err.Error())
+			}
+			return conn.(*dtlcp.Conn), sp
+		}
 		return dtlcp.Server(sp, remote, sc.BuildDTLCP(env, name)), sp
 	}
 	secret1, secret2 := "", ""
@@ -347,7 +365,14 @@ func (c18) Run(c *Case, src *vs.Src) *Result {
 			h2.Cookie = make([]byte, len(cookie))
 		case "other-address":
 			target = c2 // same hello and cookie, sent from address B to a server connection bound to B
-		case "other-server", "other-server-empty-secret":
+		case "field:suites-scsv", "field:suites-append-unknown", "field:suites-append-zero":
+			// the same list with one more value behind it: the renegotiation signalling value 0x00ff, a value no
+			// suite has, or 0x0000
+			extra := map[string]uint16{"field:suites-scsv": 0x00ff, "field:suites-append-unknown": 0xfafa, "field:suites-append-zero": 0}[p.Variant]
+			h2.Suites = append(append([]uint16{}, h.Suites...), extra)
+		case "field:compression-append":
+			h2.Compression = append(append([]byte{}, h.Compression...), 0x40)
+		case "other-server", "other-server-empty-secret", "other-server-same-listener":
 			target = c2 // same address A, second server connection: same configured secret => stateless cookie valid
 			mustAccept = p.Secret && secret1 == secret2
 		}
@@ -364,7 +389,7 @@ func (c18) Run(c *Case, src *vs.Src) *Result {
 			verdicts = append(verdicts, fmt.Sprintf("control: a valid cookie was not accepted (server answered %v)", kinds))
 		case mustAccept && env.KeyOps.Total() == before:
 			verdicts = append(verdicts, "control: accepted but the wrapped keys were never used (counter not wired?)")
-		case !mustAccept && (p.Variant == "other-server" || p.Variant == "other-server-empty-secret") && !p.Secret:
+		case !mustAccept && (p.Variant == "other-server" || p.Variant == "other-server-empty-secret" || p.Variant == "other-server-same-listener") && !p.Secret:
 			// per-connection random secrets: the other server must not honour the cookie
 			if accepted {
 				verdicts = append(verdicts, "a cookie issued by one server connection was accepted by another although no secret is configured")
@@ -404,3 +429,20 @@ func lastFrom(n *simnet.Net, dir int) *simnet.Dgram {
 	}
 	return last
 }
+
+// c18Inner is the packet listener under a dtlcp listener: Accept hands out the connection put into next.
+type c18Inner struct{ next stdnet.Conn }
+
+func (l *c18Inner) Accept() (stdnet.Conn, error) { return l.next, nil }
+func (l *c18Inner) Close() error                  { return nil }
+func (l *c18Inner) Addr() stdnet.Addr             { return simnet.Addr("listener:443") }
+
+// c18PC: a connected datagram socket as a packet listener hands it out (net.Conn and net.PacketConn).
+type c18PC struct {
+	*simnet.PacketConn
+	remote stdnet.Addr
+}
+
+func (c c18PC) Read(b []byte) (int, error)  { n, _, err := c.PacketConn.ReadFrom(b); return n, err }
+func (c c18PC) Write(b []byte) (int, error) { return c.PacketConn.WriteTo(b, c.remote) }
+func (c c18PC) RemoteAddr() stdnet.Addr     { return c.remote }
